@@ -57,3 +57,11 @@ func parseConditionMapAnnotation(obj *unstructured.Unstructured) ([]corev1alpha1
 
 	return outputMappings, nil
 }
+
+// ValidateConditionMapAnnotation reports whether the condition-map annotation of the given object,
+// if present, can be parsed. RenderObjectSetTemplateSpec can not return an error, so malformed
+// annotations have to be rejected during object validation.
+func ValidateConditionMapAnnotation(obj *unstructured.Unstructured) error {
+	_, err := parseConditionMapAnnotation(obj)
+	return err
+}
